@@ -628,7 +628,7 @@ func runSystem(a *args) error {
 		os.MkdirAll(env.dir, 0755)
 		seg := []uint64{2, 3, 4, 5, 7, 10}[r.Intn(6)]
 		a.emit(map[string]any{"ev": "prog", "prog": prog, "seg": seg})
-		kind := []string{"strategies", "subsets", "resume"}[i%3]
+		kind := []string{"strategies", "subsets", "resume", "forks"}[i%4]
 		if want != "" {
 			kind = want
 		}
@@ -663,6 +663,10 @@ func runSystem(a *args) error {
 				}
 				emitRun(a, env, c2, "", false)
 				all = unionFiles(all, listFiles(env.dir))
+			}
+		case "forks":
+			for k := 0; k < 3; k++ {
+				runForks(a, r, env, seg)
 			}
 		case "resume":
 			cfg := randCfg(r, prog, seg)
@@ -782,3 +786,262 @@ func emitRun(a *args, env *sysEnv, cfg runCfg, cursor string, traceSched bool) r
 	a.emitNT(map[string]any{"ev": "run", "cfg": cfg, "obs": obs, "filesBefore": before}, nd > 1)
 	return obs
 }
+
+// ------------------------------------------------------------------ fork histories (C03)
+
+type forkStep struct {
+	Step     string `json:"step"` // new undo irr stalled newirr
+	Num      uint64 `json:"num"`
+	ID       string `json:"id"`
+	Junction string `json:"junction"` // undo: id of the reorg junction block
+	JNum     uint64 `json:"jnum"`
+	Final    bool   `json:"final"` // a block of the final prefix fed before the fork tree
+}
+
+type genStep struct {
+	blk *pbbstream.Block
+	obj *stepObj
+	js  forkStep
+}
+
+// forkSteps: a random fork tree over `depth` heights above `base`, delivered in a random (parent-first) arrival order
+// with random finality progress, turned into steps by the REAL bstream/forkable.
+func forkSteps(r *rand.Rand, base uint64, depth int) ([]chainBlock, []genStep) {
+	type node struct {
+		cb chainBlock
+	}
+	lib := base - 1
+	var arrival []chainBlock
+	levels := map[uint64][]chainBlock{base - 1: {{Num: base - 1, ID: finalID(base - 1)}}}
+	for h := base; h < base+uint64(depth); h++ {
+		nb := 1 + r.Intn(2)
+		if r.Intn(3) == 0 || h == base {
+			nb = 1 // (no fork directly on the initial LIB: forkable holds no block object for it and reports no junction)
+		}
+		for b := 0; b < nb; b++ {
+			parents := levels[h-1]
+			p := parents[r.Intn(len(parents))]
+			id := fmt.Sprintf("%d%c", h, 'a'+byte(len(levels[h])))
+			if h == base && len(levels[h]) == 0 {
+				id = fmt.Sprintf("%d%c", h, 'a')
+			}
+			cb := chainBlock{Num: h, ID: id, Parent: p.ID, Lib: lib}
+			levels[h] = append(levels[h], cb)
+			arrival = append(arrival, cb)
+		}
+	}
+	// ping-pong: two branches above the same parent, alternately one block longer than the other, so that the same blocks
+	// are applied, undone, re-applied and undone again
+	if r.Intn(3) == 0 {
+		levels = map[uint64][]chainBlock{base - 1: levels[base-1]}
+		arrival = nil
+		root := chainBlock{Num: base, ID: fmt.Sprintf("%da", base), Parent: finalID(base - 1), Lib: lib}
+		arrival = append(arrival, root)
+		tipA, tipB := root, root
+		lenA, lenB := uint64(0), uint64(0)
+		for k := 0; k < 3+r.Intn(4); k++ {
+			if k%2 == 0 { // extend A until it is longer than B
+				for lenA <= lenB {
+					lenA++
+					cb := chainBlock{Num: base + lenA, ID: fmt.Sprintf("%da", base+lenA), Parent: tipA.ID, Lib: lib}
+					arrival = append(arrival, cb)
+					tipA = cb
+				}
+			} else {
+				for lenB <= lenA {
+					lenB++
+					cb := chainBlock{Num: base + lenB, ID: fmt.Sprintf("%db", base+lenB), Parent: tipB.ID, Lib: lib}
+					arrival = append(arrival, cb)
+					tipB = cb
+				}
+			}
+		}
+		depth = 0
+	}
+	// sometimes continue one branch a bit more (long reorgs / flipping back and forth)
+	for extra := r.Intn(4); extra > 0 && depth > 0; extra-- {
+		h := base + uint64(r.Intn(depth))
+		if len(levels[h]) == 0 || h < base {
+			continue
+		}
+		p := levels[h][r.Intn(len(levels[h]))]
+		id := fmt.Sprintf("%d%c", h+1, 'a'+byte(len(levels[h+1])))
+		cb := chainBlock{Num: h + 1, ID: id, Parent: p.ID, Lib: lib}
+		levels[h+1] = append(levels[h+1], cb)
+		arrival = append(arrival, cb)
+	}
+	// random arrival order, parents first (ping-pong histories keep their order)
+	pos := map[string]int{finalID(base - 1): -1}
+	var order []chainBlock
+	rest := append([]chainBlock{}, arrival...)
+	if depth == 0 {
+		order, rest = rest, nil
+	}
+	for len(rest) > 0 {
+		var ready []int
+		for i, cb := range rest {
+			if _, ok := pos[cb.Parent]; ok {
+				ready = append(ready, i)
+			}
+		}
+		i := ready[r.Intn(len(ready))]
+		if r.Intn(3) != 0 {
+			i = ready[0]
+		}
+		pos[rest[i].ID] = len(order)
+		order = append(order, rest[i])
+		rest = append(rest[:i], rest[i+1:]...)
+	}
+	var out []genStep
+	fk := forkableNew(bstream.NewBlockRef(finalID(base-1), base-1), func(blk *pbbstream.Block, step bstream.StepType, cur *bstream.Cursor, junction bstream.BlockRef) {
+		js := forkStep{Num: blk.Number, ID: blk.Id}
+		switch {
+		case step == bstream.StepNew:
+			js.Step = "new"
+		case step == bstream.StepUndo:
+			js.Step = "undo"
+		case step == bstream.StepIrreversible:
+			js.Step = "irr"
+		case step == bstream.StepStalled:
+			js.Step = "stalled"
+		case step == bstream.StepNewIrreversible:
+			js.Step = "newirr"
+		default:
+			js.Step = fmt.Sprintf("step%d", step)
+		}
+		if junction != nil {
+			js.Junction, js.JNum = junction.ID(), junction.Num()
+		}
+		out = append(out, genStep{blk: blk, obj: &stepObj{cursor: cur, step: step, junction: junction}, js: js})
+	})
+	curLib := base - 1
+	for i, cb := range order {
+		// finality progress: sometimes a block declares an ancestor (at least 2 below) final
+		if r.Intn(4) == 0 && cb.Num >= base+2 {
+			if nl := cb.Num - 2 - uint64(r.Intn(2)); nl > curLib {
+				curLib = nl
+			}
+		}
+		order[i].Lib = curLib
+		fk(mkBlock(cb.Num, cb.ID, cb.Parent, curLib))
+	}
+	return order, out
+}
+
+type forkObs struct {
+	Resp  []respRec          `json:"resp"`
+	After []map[string]any   `json:"after"` // per step: typed store map, sizes, number of responses so far
+	Err   string             `json:"err"`
+	Panic string             `json:"panic"`
+}
+
+func runForks(a *args, r *rand.Rand, env *sysEnv, seg uint64) {
+	out := env.prog[len(env.prog)-1]
+	base := out.Init + 2 + uint64(r.Intn(8))
+	arrival, steps := forkSteps(r, base, 2+r.Intn(4))
+	start := int64(base) - int64(r.Intn(3))
+	if start < int64(out.Init) {
+		start = int64(out.Init)
+	}
+	if r.Intn(5) == 0 {
+		start = int64(base) + int64(r.Intn(3)) // start ABOVE the first forked heights: an undo below the start block
+	}
+	cfg := runCfg{Prod: r.Intn(3) == 0, Start: start, Stop: base + 40, LibOK: true, Lib: base - 1, Seg: seg, Workers: 1 + r.Intn(2), Label: "forks"}
+	obs := forkObs{Resp: []respRec{}, After: []map[string]any{}}
+	basest, err := dstore.NewStore(env.dir, "zst", "zstd", true)
+	if err != nil {
+		return
+	}
+	gate := &jobGate{workers: cfg.Workers}
+	wid := 0
+	rc := config.RuntimeConfig{SegmentSize: cfg.Seg, DefaultParallelSubrequests: uint64(cfg.Workers), BaseObjectStore: basest, DefaultCacheTag: "tag", MaxJobsAhead: 10,
+		WorkerFactory: func(*zap.Logger) work.Worker { wid++; return &gatedWorker{env: env, cfg: cfg, gate: gate, id: wid} }}
+	var mu sync.Mutex
+	jsteps := []forkStep{}
+	svc := service.TestNewService(rc, cfg.Lib, func(ctx context.Context, h bstream.Handler, st int64, stop uint64, _ string, _ bool, _ bool, _ *zap.Logger, _ ...bsstream.Option) (service.Streamable, error) {
+		return streamFunc(func(ctx context.Context) error {
+			snap := func(js forkStep) {
+				p := pipeOf(h)
+				rec := map[string]any{"stores": map[string]map[string]any{}, "sizesOK": true, "nresp": 0}
+				if p != nil {
+					if sm := p.GetStoreMap(); sm != nil {
+						rec["stores"] = typedStoreMap(env, sm)
+						for _, s := range sm {
+							var act uint64
+							s.Iter(func(k string, v []byte) error { act += uint64(len(k) + len(v)); return nil })
+							if act != s.SizeBytes() {
+								rec["sizesOK"] = false
+							}
+						}
+					}
+				}
+				mu.Lock()
+				rec["nresp"] = len(obs.Resp)
+				mu.Unlock()
+				obs.After = append(obs.After, rec)
+				jsteps = append(jsteps, js)
+			}
+			// final prefix [handoff, base)
+			for n := uint64(st); n < base; n++ {
+				lib := n
+				blk := mkBlock(n, finalID(n), finalID(n-1), lib)
+				ref := bstream.NewBlockRef(blk.Id, n)
+				obj := &stepObj{step: bstream.StepNewIrreversible, cursor: &bstream.Cursor{Step: bstream.StepNewIrreversible, Block: ref, LIB: ref, HeadBlock: ref}}
+				if err := h.ProcessBlock(blk, obj); err != nil {
+					return err
+				}
+				snap(forkStep{Step: "newirr", Num: n, ID: blk.Id, Final: true})
+			}
+			for _, s := range steps {
+				if err := h.ProcessBlock(s.blk, s.obj); err != nil {
+					return err
+				}
+				snap(s.js)
+			}
+			return io.EOF
+		}), nil
+	})
+	req := &pbsubstreamsrpc.Request{StartBlockNum: cfg.Start, StopBlockNum: cfg.Stop, ProductionMode: cfg.Prod, OutputModule: "out", Modules: env.mods}
+	collect := func(resp substreams.ResponseFromAnyTier) error {
+		rr, ok := resp.(*pbsubstreamsrpc.Response)
+		if !ok {
+			return nil
+		}
+		mu.Lock()
+		defer mu.Unlock()
+		switch m := rr.Message.(type) {
+		case *pbsubstreamsrpc.Response_BlockScopedData:
+			d := m.BlockScopedData
+			rec := respRec{Kind: "data", Num: d.Clock.Number, ID: d.Clock.Id, Payload: []int{}, Final: d.FinalBlockHeight}
+			if d.Output != nil && d.Output.MapOutput != nil && len(d.Output.MapOutput.Value) > 0 {
+				v, err := strconv.ParseInt(string(d.Output.MapOutput.Value), 10, 64)
+				rec.Unparse = err != nil
+				rec.Payload = []int{int(v)}
+			}
+			if c, err := bstream.CursorFromOpaque(d.Cursor); err == nil {
+				rec.CurNum, rec.CurID = c.Block.Num(), c.Block.ID()
+			}
+			obs.Resp = append(obs.Resp, rec)
+		case *pbsubstreamsrpc.Response_BlockUndoSignal:
+			u := m.BlockUndoSignal
+			obs.Resp = append(obs.Resp, respRec{Kind: "undo", Num: u.LastValidBlock.Number, ID: u.LastValidBlock.Id, Payload: []int{}})
+		}
+		return nil
+	}
+	schedMu.Lock()
+	orchestrator.VerifOnScheduler = func(s *scheduler.Scheduler) { s.WorkerPool.VerifSkipRampup() }
+	scheduler.VerifTrace = nil
+	ctx := reqctx.WithTier2RequestParameters(context.Background(), reqctx.Tier2RequestParameters{BlockType: blockType, StateBundleSize: cfg.Seg, StateStoreURL: env.dir, StateStoreDefaultTag: "tag", MeteringConfig: "null://"})
+	ctx, cancel := context.WithTimeout(ctx, 20*time.Second)
+	obs.Panic = guard(func() { err = svc.TestBlocks(ctx, false, req, collect) })
+	cancel()
+	schedMu.Unlock()
+	if err != nil {
+		obs.Err = err.Error()
+	}
+	a.emitNT(map[string]any{"ev": "forkrun", "cfg": cfg, "base": base, "arrival": arrival, "steps": jsteps, "obs": obs}, len(steps) > 3)
+}
+
+type streamFunc func(ctx context.Context) error
+
+func (f streamFunc) Run(ctx context.Context) error { return f(ctx) }
